@@ -711,6 +711,17 @@ theorem countdown_count (c : CState) : (countdown c).count = c.count := by
     · rfl
     · split <;> rfl
 
+/-- `countdown()` does not read `malloc_count`: the two statements of `cpputest_malloc_location` commute -/
+theorem countdown_count_comm (c : CState) (k : Nat) :
+    countdown { c with count := k } = { countdown c with count := k } := by
+  unfold countdown setOutOfMemory
+  simp only []
+  split
+  · rfl
+  · split
+    · rfl
+    · split <;> rfl
+
 theorem cstep_count (c : CState) (op : COp) :
     (cstep c op).count =
       match op with
@@ -731,5 +742,54 @@ theorem cstep_count (c : CState) (op : COp) :
   | countReset => rfl
   | realloc e => rfl
   | free => rfl
+
+end Failable
+
+namespace Failable
+open Gen.Failable
+
+/-- the countdown on top of ANY installed allocator `a`: the counter runs down, `a` stays current until the
+    countdown expires, then the null allocator is current and `a` is the saved one -/
+theorem afterMallocs_countdown_state_over (a : Alloc) (n : Int) : ∀ (k : Nat),
+    (n < 0 → (afterMallocs (setCountdown { cinit with cur := a } n) k).counter = n ∧
+              (afterMallocs (setCountdown { cinit with cur := a } n) k).cur = a ∧
+              (afterMallocs (setCountdown { cinit with cur := a } n) k).orig = none) ∧
+    (0 ≤ n → (k : Int) < n → (afterMallocs (setCountdown { cinit with cur := a } n) k).counter = n - k ∧
+              (afterMallocs (setCountdown { cinit with cur := a } n) k).cur = a ∧
+              (afterMallocs (setCountdown { cinit with cur := a } n) k).orig = none) ∧
+    (0 ≤ n → n ≤ (k : Int) → (afterMallocs (setCountdown { cinit with cur := a } n) k).counter = 0 ∧
+              (afterMallocs (setCountdown { cinit with cur := a } n) k).cur = .null ∧
+              (afterMallocs (setCountdown { cinit with cur := a } n) k).orig = some a)
+  | 0 => by
+    by_cases h0 : n = 0
+    · subst h0
+      refine ⟨fun h => by omega, fun _ h => by omega, fun _ _ => ?_⟩
+      simp [afterMallocs, setCountdown, cinit, outOfMemory, setOutOfMemory]
+    · have hs : setCountdown { cinit with cur := a } n = { cinit with cur := a, counter := n } := by
+        simp [setCountdown, outOfMemory, h0]
+      refine ⟨fun _ => ?_, fun _ _ => ?_, fun h1 h2 => by omega⟩ <;>
+        (simp only [afterMallocs]; rw [hs]; exact ⟨by simp, rfl, rfl⟩)
+  | k + 1 => by
+    obtain ⟨i1, i2, i3⟩ := afterMallocs_countdown_state_over a n k
+    simp only [afterMallocs, mallocState]
+    generalize afterMallocs (setCountdown { cinit with cur := a } n) k = c at i1 i2 i3 ⊢
+    refine ⟨?_, ?_, ?_⟩
+    · intro h
+      obtain ⟨x, y, z⟩ := i1 h
+      rw [countdown_idle c (by omega)]
+      exact ⟨x, y, z⟩
+    · intro h1 h2
+      obtain ⟨x, y, z⟩ := i2 h1 (by omega)
+      rw [countdown_big c (by omega)]
+      refine ⟨?_, y, z⟩
+      simp only [x]; omega
+    · intro h1 h2
+      by_cases hk : n ≤ (k : Int)
+      · obtain ⟨x, y, z⟩ := i3 h1 hk
+        rw [countdown_zero c x]
+        exact ⟨x, y, z⟩
+      · obtain ⟨x, y, z⟩ := i2 h1 (by omega)
+        rw [countdown_one c (by omega)]
+        simp [setOutOfMemory, y, z]
 
 end Failable
